@@ -62,6 +62,7 @@ ASSUMPTIONS = [
     "material values are finite reals (no NaN/inf); 3-tuples are tuples of floats (a 3-tuple of Python ints is REJECTED by the code with ValueError, shown by its own obligation; it is never mis-normalised)",
     "isotropy is classified with math.isclose's default RELATIVE tolerance 1e-9 on the diagonal (so diagonals that differ by <= 1e-9 relative count as isotropic); the contract states exactly that tolerance",
     "ordering: 3 materials with fully symbolic sort keys (all orders and all tie patterns arise as paths); thorough tier additionally 4 materials with symbolic (eps, mu) keys",
+    "from_complex_permittivity with full (9-component / nested) tensors: real parts concrete (they only pass through), imaginary parts symbolic; scalar and 3-tuple forms fully symbolic",
     "from_complex_permittivity: 'reproduces that permittivity' is read as eps' + i*sigma/(omega0*eps0) == eps (the e^{-i omega t} convention of the docstring); reference frequency > 0",
 ]
 MIN_OBLIGATIONS = {"quick": 300, "thorough": 600}
@@ -388,6 +389,12 @@ def _from_complex(form, ref_kind):
         n = {"scalar": 1, "3-tuple": 3, "9-tuple": 9, "nested": 9}[form]
         er, ei = _syms("eps_re", n, inp), _syms("eps_im", n, inp)
         mr, mi = _syms("mu_re", n, inp), _syms("mu_im", n, inp)
+        if n == 9:
+            # full tensors: the real parts only pass through (and feed the singularity guard, a cubic
+            # determinant test): they are fixed to concrete invertible tensors, the imaginary parts
+            # (which become the conductivities) stay symbolic
+            er = [2.25, 0.125, -0.25, 0.5, 3.0, 0.0625, -0.125, 0.25, 1.5]
+            mr = [1.0, 0.0, 0.25, 0.0, 1.5, 0.0, -0.25, 0.0, 2.0]
         eps = [er[k] + 1j * ei[k] for k in range(n)]
         mu = [mr[k] + 1j * mi[k] for k in range(n)]
 
